@@ -150,7 +150,7 @@ class Scheduler(object):
             en.insert(0, cur)
         return en
 
-    def _choose(self, en, cur, kind, desc):
+    def _choose(self, en, cur, kind, desc, voluntary=False):
         if len(en) == 1:
             return en[0]
         i = len(self.points)
@@ -162,10 +162,11 @@ class Scheduler(object):
             c = 0
         if len(self.points) >= self.max_points:
             raise HarnessStuck("more than %d scheduling points" % self.max_points)
-        self.points.append(Point(len(en), c, bool(cur is not None and en[0] is cur), kind, desc, [t.id for t in en]))
+        self.points.append(Point(len(en), c, bool(cur is not None and en[0] is cur and not voluntary), kind, desc,
+                                 [t.id for t in en]))
         return en[c]
 
-    def _handoff(self, cur, kind, desc, leaving=False):
+    def _handoff(self, cur, kind, desc, leaving=False, voluntary=False):
         """cur is at a scheduling point (or leaving).  Pick who runs next and pass the baton."""
         if self._evaluating:
             return
@@ -181,7 +182,7 @@ class Scheduler(object):
                 raise SchedAbort()
             return
         try:
-            nxt = self._choose(en, None if leaving else cur, kind, desc)
+            nxt = self._choose(en, None if leaving else cur, kind, desc, voluntary)
         except (ReplayDivergence, HarnessStuck) as e:
             self.end_status = ("error", e)
             self.aborted = True
@@ -212,6 +213,17 @@ class Scheduler(object):
         if t is not self.current:
             return           # should not happen: only the baton holder runs
         self._handoff(t, kind, desc)
+
+    def env_point(self, desc="environment event"):
+        """The calling thread models an event loop that went back to waiting (select) and returns with the next
+        event of the environment: the other threads may run in between, at no preemption cost (running somebody
+        else here is a free deviation, continuing at once is the default)."""
+        t = self.me()
+        if t is None or t is not self.current:
+            return
+        if self.aborted:
+            raise SchedAbort()
+        self._handoff(t, "env", desc, voluntary=True)
 
     def wait_until(self, pred, desc):
         """Disable the calling thread until pred() holds (evaluated by the scheduler at choice time)."""
